@@ -257,9 +257,9 @@ def _permuted(rng, vs):
 def gen_named_case(rng, d, variant):
     """FNOs whose input channels are several NAMED variables: fed in the model's order and in another order,
     alone (`perm`), as members of tp.models.Parallel, or chained in tp.models.Sequential"""
-    shape = gen_shape(rng, d, 20)
-    B = rng.choice([1, 2, 3])
-    names = ["f", "g", "h"][:rng.choice([2, 2, 3])]
+    shape = gen_shape(rng, d, 16)
+    B = 1
+    names = ["f", "g", "h", "k"][:rng.choice([2, 3, 3, 3, 4])]
     allv = [[n, rng.randint(1, 2)] for n in names]
     case = dict(kind="named", variant=variant, f32=0, shape=shape, B=B, shifts=gen_shifts(rng, shape),
                 mode=rng.choice(EXEC_MODES), train=rng.randint(0, 1))
@@ -285,8 +285,24 @@ def gen_named_case(rng, d, variant):
         case["nets"] = [dict(inS=inS, outS=mid, **_fno_params(rng, shape, _vdim(inS), rng.randint(1, 2), _vdim(mid))),
                         dict(inS=mid[::-1], outS=outS, **_fno_params(rng, shape, _vdim(mid), rng.randint(1, 2), _vdim(outS)))]
         own = inS
-    case["feeds"] = [own, _permuted(rng, own)] if len(own) > 1 else [own]
-    case["data"] = {n: _nums(rng, B * _prod(shape) * dd, -24, 24) for n, dd in allv}
+    # ONE model object is fed a sequence of inputs: the variables listed in the model's own order and in several different
+    # other orders (repeats included), on grids and batch sizes that change from call to call
+    import itertools
+    perms = [list(q) for q in itertools.permutations(own)]
+    others = [q for q in perms if q != list(own)]
+    rng.shuffle(others)
+    feeds = others[:rng.randint(2, 4)] + ([list(own)] if rng.random() < 0.7 else [])
+    if others and rng.random() < 0.6:
+        feeds.append(others[0])                                   # an earlier order again, after different ones
+    rng.shuffle(feeds)
+    case["feeds"] = feeds or [list(own)]
+    steps = []
+    for _ in case["feeds"]:
+        sh = shape if rng.random() < 0.5 else [max(1, a + rng.choice([-1, 0, 1])) for a in shape]
+        Bs = rng.choice([1, 1, 2])
+        steps.append(dict(shape=sh, B=Bs, shifts=gen_shifts(rng, sh),
+                          data={n: _nums(rng, Bs * _prod(sh) * dd, -24, 24) for n, dd in allv}))
+    case["steps"] = steps
     return case
 
 
@@ -327,7 +343,7 @@ def gen_cases(ctx):
     for _ in range(ctx.scale(36, 360)):
         cases.append(gen_history_case(rng, rng.choice([1, 1, 1, 2, 2, 3]), rng.choice(["layer", "layer", "fno"])))
     # several named input variables: permuted feeds, Parallel, Sequential
-    for _ in range(ctx.scale(45, 450)):
+    for _ in range(ctx.scale(36, 360)):
         cases.append(gen_named_case(rng, rng.choice([1, 1, 2, 2, 3]), rng.choice(["perm", "perm", "parallel", "sequential"])))
     cases.append(dict(kind="prog"))
     return cases
@@ -638,75 +654,80 @@ def eval_named(case):
     tp = common.use_repo()
     import torch
     rd, cd = torch.float64, torch.complex128
-    shape, B, variant = case["shape"], case["B"], case["variant"]
+    variant, mode = case["variant"], case.get("mode", "no_grad")
     problems = []
-    res = dict(problems=problems, lines=[])
-    cols = lambda layout: torch.cat([var[n] for n, _ in layout], dim=-1)
+    res = dict(problems=problems, lines=[], refs=[], inters=[], spans=[])
+
+    def compose(nets):
+        if variant == "perm":
+            return nets[0]
+        return tp.models.Parallel(*nets) if variant == "parallel" else tp.models.Sequential(*nets)
     with torch.no_grad():
         try:
-            var = {n: _t(torch, v, (B, *shape, len(v) // (B * _prod(shape))), rd) for n, v in case["data"].items()}
-            nets = [build_fno(tp, torch, nc, rd, cd)[0] for nc in case["nets"]]
-            # reference: every FNO is called on Points in ITS OWN variable order (no re-ordering involved),
-            # the columns are picked here with plain tensor indexing
-            if variant == "perm":
-                model = nets[0]
-                ref = nets[0](tp.spaces.Points(cols(case["nets"][0]["inS"]), nets[0].input_space)).as_tensor
-                inter = None
-            elif variant == "parallel":
-                model = tp.models.Parallel(*nets)
-                ref = torch.cat([net(tp.spaces.Points(cols(nc["inS"]), net.input_space)).as_tensor
-                                 for net, nc in zip(nets, case["nets"])], dim=-1)
-                inter = None
-            else:
-                model = tp.models.Sequential(*nets)
-                inter = nets[0](tp.spaces.Points(cols(case["nets"][0]["inS"]), nets[0].input_space)).as_tensor
-                mid = case["nets"][0]["outS"]
-                off, parts = 0, {}
-                for n, dd in mid:
-                    parts[n] = inter[..., off:off + dd]
-                    off += dd
-                ref = nets[1](tp.spaces.Points(torch.cat([parts[n] for n, _ in case["nets"][1]["inS"]], dim=-1),
-                                               nets[1].input_space)).as_tensor
+            nets = [build_fno(tp, torch, dict(nc, train=case.get("train", 0)), rd, cd)[0] for nc in case["nets"]]
+            model = compose(nets)                     # the object under test: used for EVERY call of the history
             out_dim = sum(_vdim(nc["outS"]) for nc in case["nets"]) if variant == "parallel" else _vdim(case["nets"][-1]["outS"])
-            scale = 1.0 + float(ref.abs().max())
-            for layout in case["feeds"]:
-                sp = mk_space(tp, layout)
-                f = lambda t, sp=sp: model(tp.spaces.Points(t, sp)).as_tensor
-                what = f"{variant} FNO, input variables listed as {[n for n, _ in layout]}"
-                try:
-                    y = check_relations(torch, f, cols(layout), case["shifts"], TOL_ORACLE64, what, problems, case.get("mode", "no_grad"))
-                except Exception as e:
-                    problems.append(f"{what}: raised on a valid input: {type(e).__name__}: {e}"[:400])
-                    continue
-                if tuple(y.shape) != (B, *shape, out_dim):
-                    problems.append(f"{what}: output of shape {tuple(y.shape)} for an input on the grid {tuple(shape)} (batch {B}); "
-                                    f"expected {(B, *shape, out_dim)}: grid axes must be preserved")
-                    continue
-                err = float((y - ref).abs().max())
-                if not err <= TOL_ORACLE64 * scale:
-                    problems.append(f"{what}: the output differs by {err:.3g} from the output for the same named data in the models' own "
-                                    f"variable order (variables are identified by name)")
-            # model requests: the Lean model does the by-name selection itself
             f16 = lambda v: fbits(v / DEN)
 
-            def req(mode, src, nc, xrow):
+            def req(mode_, src, nc, xrow, shape):
                 C = nc["C"]
                 vs = lambda l: lst([f"{n} {dd}" for n, dd in l])
-                return (f"fnonamed {mode} {vs(src)} {vs(nc['inS'])} {lst(shape)} {nc['Cin']} {C} {nc['Cout']} {lst(nc['upW'], f16)} "
+                return (f"fnonamed {mode_} {vs(src)} {vs(nc['inS'])} {lst(shape)} {nc['Cin']} {C} {nc['Cout']} {lst(nc['upW'], f16)} "
                         f"{lst(nc['upb'], f16)} {len(nc['layers'])} " + " ".join(layer_tokens(l, C, True) for l in nc["layers"])
                         + f" {lst(nc['downW'], f16)} {lst(nc['downb'], f16)} {lst([float(v) for v in xrow.flatten()], fbits)}")
-            feed = case["feeds"][-1]
-            xfeed = cols(feed)
-            for bb in range(B):
+            for t, (layout, st) in enumerate(zip(case["feeds"], case["steps"])):
+                shape, B = st["shape"], st["B"]
+                var = {n: _t(torch, v, (B, *shape, len(v) // (B * _prod(shape))), rd) for n, v in st["data"].items()}
+                cols = lambda lay: torch.cat([var[n] for n, _ in lay], dim=-1)
+                # reference: FRESH models with the same weights, every FNO called on Points in ITS OWN variable order
+                # (no re-ordering involved), columns picked here with plain tensor indexing
+                fresh = [build_fno(tp, torch, dict(nc, train=case.get("train", 0)), rd, cd)[0] for nc in case["nets"]]
+                own = lambda i: tp.spaces.Points(cols(case["nets"][i]["inS"]), fresh[i].input_space)
+                inter = None
                 if variant == "perm":
-                    res["lines"].append(req("fix", feed, case["nets"][0], xfeed[bb]))
+                    ref = fresh[0](own(0)).as_tensor
                 elif variant == "parallel":
-                    for nc in case["nets"]:
-                        res["lines"].append(req("select", feed, nc, xfeed[bb]))
+                    ref = torch.cat([fresh[i](own(i)).as_tensor for i in range(len(fresh))], dim=-1)
                 else:
-                    res["lines"].append(req("fix", feed, case["nets"][0], xfeed[bb]))
-                    res["lines"].append(req("fix", case["nets"][0]["outS"], case["nets"][1], inter[bb]))
-            res["ref"], res["inter"] = ref.detach(), inter
+                    inter = fresh[0](own(0)).as_tensor
+                    off, parts = 0, {}
+                    for n, dd in case["nets"][0]["outS"]:
+                        parts[n] = inter[..., off:off + dd]
+                        off += dd
+                    ref = fresh[1](tp.spaces.Points(torch.cat([parts[n] for n, _ in case["nets"][1]["inS"]], dim=-1),
+                                                    fresh[1].input_space)).as_tensor
+                res["refs"].append(ref.detach()); res["inters"].append(inter)
+                scale = 1.0 + float(ref.abs().max())
+                sp = mk_space(tp, layout)
+                f = lambda x, sp=sp: model(tp.spaces.Points(x, sp)).as_tensor
+                what = (f"{variant} FNO, call {t + 1} of one object fed with the variable orders "
+                        f"{[''.join(n for n, _ in l) for l in case['feeds']]}: variables listed as {[n for n, _ in layout]}, grid {shape}")
+                start = len(res["lines"])
+                try:
+                    y = check_relations(torch, f, cols(layout), st["shifts"], TOL_ORACLE64, what, problems, mode)
+                    if tuple(y.shape) != (B, *shape, out_dim):
+                        problems.append(f"{what}: output of shape {tuple(y.shape)} (batch {B}); expected {(B, *shape, out_dim)}: "
+                                        f"grid axes must be preserved")
+                    else:
+                        err = float((y - ref).abs().max())
+                        if not err <= TOL_ORACLE64 * scale:
+                            problems.append(f"{what}: the output differs by {err:.3g} from the output of a fresh model with the same weights "
+                                            f"for the same named data in the models' own variable order (variables are identified by name, "
+                                            f"a call must not depend on earlier calls)")
+                except Exception as e:
+                    problems.append(f"{what}: raised on a valid input: {type(e).__name__}: {e}"[:500])
+                # model requests: the Lean model does the by-name selection itself
+                xfeed = cols(layout)
+                for bb in range(B):
+                    if variant == "perm":
+                        res["lines"].append(req("fix", layout, case["nets"][0], xfeed[bb], shape))
+                    elif variant == "parallel":
+                        for nc in case["nets"]:
+                            res["lines"].append(req("select", layout, nc, xfeed[bb], shape))
+                    else:
+                        res["lines"].append(req("fix", layout, case["nets"][0], xfeed[bb], shape))
+                        res["lines"].append(req("fix", case["nets"][0]["outS"], case["nets"][1], inter[bb], shape))
+                res["spans"].append((start, len(res["lines"])))
         except Exception as e:
             res["error"] = f"{type(e).__name__}: {e}"[:300]
     return res
@@ -833,7 +854,7 @@ def judge(rep, case, res, replies):
         return
     if kind == "named":
         variant = case["variant"]
-        rep.count(f"named:{variant}:d={len(case['shape'])}")
+        rep.count(f"named:{variant}:d={len(case['shape'])}:vars={len(case['feeds'][0])}")
         rep.count("named:feeds", len(case["feeds"]))
         rep.count(f"exec:{case.get('mode', 'no_grad')}:{'train' if case.get('train') else 'eval'}")
         for pr in res["problems"]:
@@ -847,32 +868,36 @@ def judge(rep, case, res, replies):
             rep.disagree("drivers/C20.lean `fnonamed` refused an input the implementation accepts", case, "accepted",
                          [r[:60] for r in replies if r.startswith(("err", "bad-op"))][0])
             return
-        rows = [torch.tensor([unfbits(v) for v in r.split()], dtype=torch.float64) for r in replies]
-        B, shape = case["B"], case["shape"]
-        per = len(rows) // B
-        try:
-            if variant == "perm":
-                m = torch.stack([rows[b].reshape(*shape, -1) for b in range(B)])
-                targets = [("output", res["ref"], m)]
-            elif variant == "parallel":
-                m = torch.stack([torch.cat([rows[b * per + i].reshape(*shape, -1) for i in range(per)], dim=-1) for b in range(B)])
-                targets = [("joined output", res["ref"], m)]
-            else:
-                m1 = torch.stack([rows[2 * b].reshape(*shape, -1) for b in range(B)])
-                m2 = torch.stack([rows[2 * b + 1].reshape(*shape, -1) for b in range(B)])
-                targets = [("first model's output", res["inter"], m1), ("output", res["ref"], m2)]
-            for nm, y, m in targets:
-                if tuple(y.shape) != tuple(m.shape):
-                    raise ValueError(f"{nm}: {tuple(y.shape)} vs {tuple(m.shape)}")
-                err = float((m - y).abs().max())
-                scale = 1.0 + float(y.abs().max())
-                if not err <= TOL_MODEL * scale:
-                    rep.disagree(f"values ({nm}) of a {variant} FNO with named input variables: drivers/C20.lean `fnonamed` "
-                                 f"(Fourier.fnoFix / fnoSelect at Float) vs the implementation, tolerance {TOL_MODEL}*(1+max|y|)", case,
-                                 dict(max_abs_diff=err), dict(first_model_values=[float(v) for v in m.flatten()[:3]]))
-                rep.hist["max_model_err"] = max(rep.hist.get("max_model_err", 0.0), err / scale)
-        except (ValueError, RuntimeError) as e:
-            rep.disagree(f"output size of a {variant} FNO: drivers/C20.lean `fnonamed` vs implementation", case, str(e)[:200], [len(r.split()) for r in replies][:4])
+        rep.count("named:distinct-non-canonical-orders-per-object",
+                  len({tuple(n for n, _ in l) for l in case["feeds"]} - {tuple(n for n, _ in case["feeds"][0])}))
+        for t, ((a0, b0), st) in enumerate(zip(res["spans"], case["steps"])):
+            rows = [torch.tensor([unfbits(v) for v in r.split()], dtype=torch.float64) for r in replies[a0:b0]]
+            B, shape = st["B"], st["shape"]
+            per = len(rows) // B
+            try:
+                if variant == "perm":
+                    m = torch.stack([rows[b].reshape(*shape, -1) for b in range(B)])
+                    targets = [("output", res["refs"][t], m)]
+                elif variant == "parallel":
+                    m = torch.stack([torch.cat([rows[b * per + i].reshape(*shape, -1) for i in range(per)], dim=-1) for b in range(B)])
+                    targets = [("joined output", res["refs"][t], m)]
+                else:
+                    m1 = torch.stack([rows[2 * b].reshape(*shape, -1) for b in range(B)])
+                    m2 = torch.stack([rows[2 * b + 1].reshape(*shape, -1) for b in range(B)])
+                    targets = [("first model's output", res["inters"][t], m1), ("output", res["refs"][t], m2)]
+                for nm, y, m in targets:
+                    if tuple(y.shape) != tuple(m.shape):
+                        raise ValueError(f"{nm}: {tuple(y.shape)} vs {tuple(m.shape)}")
+                    err = float((m - y).abs().max())
+                    scale = 1.0 + float(y.abs().max())
+                    if not err <= TOL_MODEL * scale:
+                        rep.disagree(f"values ({nm}, call {t + 1}) of a {variant} FNO with named input variables: drivers/C20.lean `fnonamed` "
+                                     f"(Fourier.fnoFix / fnoSelect at Float) vs a fresh implementation model, tolerance {TOL_MODEL}*(1+max|y|)", case,
+                                     dict(max_abs_diff=err), dict(first_model_values=[float(v) for v in m.flatten()[:3]]))
+                    rep.hist["max_model_err"] = max(rep.hist.get("max_model_err", 0.0), err / scale)
+            except (ValueError, RuntimeError) as e:
+                rep.disagree(f"output size of a {variant} FNO: drivers/C20.lean `fnonamed` vs implementation", case, str(e)[:200],
+                             [len(r.split()) for r in replies[a0:b0]][:4])
         return
     if kind == "malformed":
         rep.count("malformed")
